@@ -342,6 +342,23 @@ pub fn run(ctx: &Ctx) {
     });
   }
   ctx.subspace(&format!("day series on the civil dates of {} years ({} dates): duty, twelve spirits, 28 mansions + luminary, day nine star, six-day star, moon phase, minor Ren (both routes)", years.len(), n), done, n);
+  if ctx.quick() {
+    // sparse whole-range sub-space: every 37th civil date of 0001-02-10..9998-12-31 (37 is coprime to 7, 9, 12, 28 and 60, so
+    // every residue of every cycle is met), and every hour of every 37 x 41-th of them
+    let lo = civ.ord(1, 2, 10).unwrap();
+    let hi = civ.ord(9998, 12, 31).unwrap();
+    let cnt = (hi - lo) / 37;
+    let done = par_chunks(ctx, 0, cnt, 256, |x, y, l| {
+      for k in x..y {
+        let mut prev = None;
+        check_day(ctx, &civ, &tm, lo + 37 * k, &mut prev, l);
+        if k % 41 == 0 {
+          check_hours(ctx, &civ, &tm, lo + 37 * k, l);
+        }
+      }
+    });
+    ctx.subspace(&format!("every 37th civil date of 0001-02-10..9998-12-31 ({} dates): the day series; all 24 hours of every 41st of them", cnt), done, cnt as u64);
+  }
   // hours: 12 double-hours (all 24 clock hours) of the days of W'
   let mut hdays: Vec<usize> = Vec::new();
   let starts: Vec<(i32, u8, u8)> = if ctx.quick() { vec![(2023, 6, 1), (2024, 12, 1)] } else { vec![(1582, 1, 1), (2020, 1, 1), (2023, 1, 1), (9990, 1, 1), (100, 1, 1)] };
